@@ -250,6 +250,117 @@ def rule_init(rep):
     w.run(rep)
 
 
+MAKE_DRIVER = '''#include "xtl/xsequence.hpp"
+#include <array>
+#include <vector>
+namespace wxtl
+{
+    inline void use_make()
+    {
+        auto a = xtl::make_sequence<std::array<double, 3>>(3);
+        auto b = xtl::make_sequence<std::array<double, 3>>(3, 1.5);
+        auto c = xtl::make_sequence<std::vector<double>>(3);
+        auto e = xtl::make_sequence<std::vector<double>>(3, 1.5);
+        auto f = xtl::make_sequence<std::array<bool, 3>>(3);
+        auto g = xtl::make_sequence<std::array<bool, 3>>(3, true);
+        (void)a; (void)b; (void)c; (void)e; (void)f; (void)g;
+    }
+}
+'''
+
+
+def rule_make(rep):
+    """what the containers' constructors rely on: make_sequence<S>(n) is n value-initialised elements (for std::array: all of its elements),
+    make_sequence<S>(n, v) is n copies of v - decided on the instantiated builders"""
+    R = "C11.make"
+    rep.rule(R, "make_sequence<S>(n) yields value-initialised elements (std::array: a zero-initialised array, std::vector: S(n)) and make_sequence<S>(n, v) "
+                "yields copies of v (std::array: filled with v, std::vector: S(n, v)); the wrappers pass their arguments on in order")
+    d = cj.dump(MAKE_DRIVER, "xtl::")
+    rep.cmd(d.cmd)
+    n_inst = 0
+
+    def defined_by(fn, e, vparam):
+        """how the returned object gets its contents: 'zero' | 'fill' | 'sized' | 'sized+value' | ('bad', why) | None"""
+        e = ir.strip(e)
+        k = e.get("kind")
+        ks = ir.ekids(e)
+        if k in ("CXXFunctionalCastExpr", "CXXBindTemporaryExpr") and ks:
+            return defined_by(fn, ks[-1], vparam)
+        if k in ("CXXConstructExpr", "CXXTemporaryObjectExpr") and len(ks) == 1 and ir.strip(ks[0]).get("kind") == "DeclRefExpr" and \
+                (d.by_id.get((ir.strip(ks[0]).get("referencedDecl") or {}).get("id")) or {}).get("kind") == "VarDecl":
+            return defined_by(fn, ks[0], vparam)            # the move/copy of a returned local
+        if k in ("CXXTemporaryObjectExpr", "CXXConstructExpr"):
+            args = [a for a in ks if a.get("kind") != "CXXDefaultArgExpr"]
+            if not args:
+                return "zero" if e.get("zeroing") else ("bad", "the object is default-initialised (`T x;` / `T()` without zeroing): its elements are indeterminate")
+            names = [ir.sx(a) for a in args]
+            ps = [("ref", p.get("name")) for p in ir.params(fn)]
+            if names == ps[:len(names)]:
+                return "sized" if len(names) == 1 else "sized+value"
+            return ("bad", "constructed from `%s`, expected the parameters in order" % ", ".join(ir.show(x) for x in names))
+        if k == "InitListExpr":
+            return "zero" if not [a for a in ks if a.get("kind") not in ("ImplicitValueInitExpr",)] else None
+        if k in ("CXXScalarValueInitExpr", "ImplicitValueInitExpr"):
+            return "zero"
+        if k == "DeclRefExpr":
+            v = d.by_id.get((e.get("referencedDecl") or {}).get("id"))
+            if v is None or v.get("kind") != "VarDecl":
+                return None
+            init = ir.ekids(v)
+            how = defined_by(fn, init[-1], vparam) if init else ("bad", "the local `%s` has no initialiser" % v.get("name"))
+            # a later fill(v) of the whole object defines it
+            for c in ir.walk_expr(ir.body(fn)):
+                if c.get("kind") == "CXXMemberCallExpr":
+                    m = ir.strip(ir.ekids(c)[0])
+                    if m.get("kind") == "MemberExpr" and (m.get("name") or "") == "fill" and ir.ekids(m) and ir.sx(ir.ekids(m)[0]) == ("ref", v.get("name")):
+                        a = ir.sx(ir.ekids(c)[1]) if len(ir.ekids(c)) > 1 else None
+                        if vparam is not None and a == ("ref", vparam):
+                            return "fill"
+                        return ("bad", "filled with `%s`, expected the value parameter" % (ir.show(a) if a else "?"))
+            return how
+        return None
+
+    for f in ir.functions(d, "make"):
+        c = ir.enclosing_class(d, f)
+        if c is None or c.get("name") != "sequence_builder" or ir.is_template_pattern(d, f):
+            continue
+        ps = ir.params(f)
+        if any("initializer_list" in ir.qtype(p) for p in ps) or len(ps) not in (1, 2):
+            continue
+        targ = " ".join(ir.template_args(c))
+        is_array = "array<" in targ
+        lab = "sequence_builder<%s>::make(%s)" % (targ[:40], ", ".join(ir.qtype(p) for p in ps))
+        rets = [x for x in ir.walk_expr(ir.body(f)) if x.get("kind") == "ReturnStmt" and ir.ekids(x)]
+        if len(rets) != 1:
+            rep.inconclusive(R, lab, "contents of the result", where=d.where(f), detail="%d return statements" % len(rets))
+            continue
+        n_inst += 1
+        how = defined_by(f, ir.ekids(rets[0])[0], ps[1].get("name") if len(ps) == 2 else None)
+        want = ("zero" if len(ps) == 1 else "fill") if is_array else ("sized" if len(ps) == 1 else "sized+value")
+        if isinstance(how, tuple):
+            rep.violates(R, lab, "contents of the result", where=d.where(rets[0]), detail=how[1])
+        elif how is None:
+            rep.inconclusive(R, lab, "contents of the result", where=d.where(rets[0]), detail="form of the returned object not recognised")
+        elif how == want or (is_array and len(ps) == 1 and how == "zero"):
+            rep.holds(R, lab, "contents of the result", where=d.where(rets[0]), detail={"zero": "value-initialised", "fill": "filled with the value parameter",
+                                                                                            "sized": "S(size)", "sized+value": "S(size, v)"}[how])
+        else:
+            rep.violates(R, lab, "contents of the result", where=d.where(rets[0]),
+                         detail="the result is %s, expected %s" % (how, want))
+    for f in ir.functions(d, "make_sequence"):
+        if ir.is_template_pattern(d, f) or any("initializer_list" in ir.qtype(p) for p in ir.params(f)):
+            continue
+        ps = ir.params(f)
+        lab = "make_sequence<%s>(%s)" % ((f.get("type") or {}).get("qualType", "").split("(")[0].strip()[:40], ", ".join(ir.qtype(p) for p in ps))
+        calls = [x for x in ir.walk_expr(ir.body(f)) if x.get("kind") == "CallExpr" and ir.sx(x)[0] == "call" and ir.sx(x)[1] in (("ref", "make"), ("mem", ("this",), "make"))]
+        n_inst += 1
+        ok = len(calls) == 1 and list(ir.sx(calls[0])[2:]) == [("ref", p.get("name")) for p in ps]
+        (rep.holds if ok else rep.violates)(R, lab, "passes its arguments on", where=d.where(f),
+                                            **({} if ok else {"detail": "calls `%s`" % (ir.show(ir.sx(calls[0])) if calls else "nothing")}))
+    if n_inst < 8:
+        raise cj.AnalysisBroken("C11.make: only %d builder instantiations found" % n_inst)
+
+
 def rule_default_ctor(rep, d):
     """array variants: the default constructor must delegate to a base constructor with the array extent"""
     for cname, extent in (("xoptional_array", "I"), ("xcomplex_array", "N")):
@@ -322,6 +433,16 @@ def rule_flags(rep):
     for i in tmp2.instances:
         if i["function"].startswith("xbitset_reference"):
             rep.instances.append(i)
+    # == of two containers compares the flag storages with the bitset's ==: every block must take part
+    tmp3 = Report("C11", rep.tier, rep.level, "")
+    c03.rule_cover(tmp3, inst, "C11.flags")
+    n_eq = 0
+    for i in tmp3.instances:
+        if "operator==" in i["function"]:
+            rep.instances.append(i)
+            n_eq += 1
+    if n_eq == 0:
+        rep.inconclusive("C11.flags", "xdynamic_bitset_base<unsigned long>::operator==", "every block compared", detail="no block loop found in the flag storage's ==")
     rep.unit("flag storage xdynamic_bitset<unsigned long>: %d instances from C03's block/size rules" % (len(rep.instances) - before))
 
 
@@ -340,5 +461,6 @@ def run(tier):
     rule_iter(rep, d)
     rule_default_ctor(rep, d)
     rule_init(rep)
+    rule_make(rep)
     rule_flags(rep)
     return rep
